@@ -14,8 +14,8 @@ position of that top-level call sequence:
             (rm / makedirs / mv / open-for-write: raised when the file is closed)
   'partial' perform part of the effect, then raise OSError
             (rm: remove a non-empty strict part of the subtree; makedirs: create only the
-            first missing directory; open-for-write: create/truncate the file, raise at
-            the first write)
+            first missing directory; open-for-write: create/truncate the file, write half of
+            the first chunk, raise)
   'stale'   ls / find return a strict subset (the last entry in sorted order is dropped;
             'stale0' drops the first one)
   'lie'     exists / isfile / isdir / info behave as if the underlying stat failed:
@@ -66,8 +66,10 @@ class _WFile:
     def write(self, b):
         if self._mode == 'partial' and not self._fired:
             object.__setattr__(self, '_fired', True)
+            data = bytes(b)
+            self._f.write(data[:max(1, len(data) // 2)])     # a torn write: some bytes made it
             self._f.flush()
-            raise InjectedFault('injected: write failed after the file was created')
+            raise InjectedFault('injected: write failed after part of the data was written')
         return self._f.write(b)
 
     def close(self):
